@@ -27,7 +27,12 @@ Inductive c15case :=
    reported failed and the total must not move *)
 | CDupInsert (totalBefore totalAfter failedPoints : Z)
 (* the total reported by the shards against the number of sent ids that are found, each looked up on its own *)
-| CStored (reported stored : Z).
+| CStored (reported stored : Z)
+(* one accepted ClusterNode.InsertPoints without failed ranges on a live node: the shards before the request
+   (Size, PointCount as GetShardsInfo reports them), the sizes of the points in id-sorted order, the limits, and for
+   every shard of the collection afterwards (in the order of its shard list) the positions IN THE ID-SORTED BATCH of
+   the batch points stored there, ascending (each shard asked directly) *)
+| CLive (shards : list (Z * Z)) (sizes : list Z) (maxSize maxCount : Z) (stored : list (list N)).
 
 Definition to_assignment (t : N * N * N) : assignment :=
   (N.to_nat (fst (fst t)), N.to_nat (snd (fst t)), N.to_nat (snd t)).
@@ -44,6 +49,23 @@ Fixpoint asgs_eqb (a b : list assignment) : bool :=
 Definition model_eqb (m : option (list assignment * nat)) (out : list assignment) (created : nat) : bool :=
   match m with
   | Some (o, c) => asgs_eqb o out && (c =? created)%nat
+  | None => false
+  end.
+
+(* what the model's assignment puts into shard i *)
+Definition model_stored (out : list assignment) (i : nat) : list N :=
+  concat (map (fun a => if (a_idx a =? i)%nat then map N.of_nat (seq (a_start a) (a_end a - a_start a)) else []) out).
+Fixpoint listN_eqb (a b : list N) : bool :=
+  match a, b with
+  | [], [] => true
+  | x :: a', y :: b' => (x =? y) && listN_eqb a' b'
+  | _, _ => false
+  end.
+Definition live_model_b (shards : list (Z * Z)) (sizes : list Z) (maxS maxC : Z) (stored : list (list N)) : bool :=
+  match distribute shards sizes maxS maxC with
+  | Some (out, created) =>
+      (length stored =? length shards + created)%nat &&
+      forallb (fun i => listN_eqb (nth i stored []) (model_stored out i)) (seq 0 (length stored))
   | None => false
   end.
 
@@ -74,6 +96,9 @@ Definition verdict (c : c15case) : N :=
       first_fail [ ((failed =? 1)%Z, 114); ((after =? before)%Z, 115) ]
   | CStored reported stored =>
       first_fail [ ((reported =? stored)%Z, 116) ]
+  | CLive shards sizes maxS maxC stored =>
+      first_fail [ (live_ranges_b (length sizes) stored, 117);
+                   (live_model_b shards sizes maxS maxC stored, 202) ]
   end.
 
 Fixpoint bad_from (i : N) (cs : list c15case) : list (N * N) :=
